@@ -12,12 +12,14 @@ database is re-verified after every event.
 """
 from __future__ import annotations
 
+import json
 import os
 import traceback
 from dataclasses import dataclass
 
 from ipv8.attestation.identity.community import IdentityCommunity, IdentitySettings
 from ipv8.attestation.identity.manager import IdentityManager
+from ipv8.attestation.identity.metadata import Metadata
 from ipv8.attestation.identity.payload import (
     AttestPayload,
     DisclosePayload,
@@ -56,7 +58,8 @@ EXPLANATION = (
     "virtual time steps (299 s / 301 s) and adversarial datagrams (replay of a recorded disclosure from its own or the "
     "other subject's address, B's chain re-disclosed under D's signature, RequestMissing from T / D, attest messages "
     "that are valid, third-party signed, address-spoofed or altered, a disclosure that carries the subject's own "
-    "attestation over the disclosed metadata) on three real IdentityCommunity nodes; after every "
+    "attestation over the disclosed metadata, a second differently dated metadata object over an already "
+    "disclosed token) on three real IdentityCommunity nodes; after every "
     "event the network is drained FIFO and every AttestPayload / MissingResponsePayload a real node sends is judged by "
     "the consent-table reference at the moment it is sent; every Attestations row of every database is re-verified "
     "after every event.  Hash and name indices are introduced in order (symmetry).  States are merged on a digest of "
@@ -193,6 +196,8 @@ class Model(core.BfsModel):
             al += [("att", v) for v in ("T-valid", "D-carries-T", "D-own-from-T-address", "T-altered")]
         if "reqatt" in g:
             al += [("reqatt", s) for s in c["reqatt_subjects"]]
+        if "remeta" in g:
+            al += [("remeta", s) for s in c["req_subjects"]]
         if "dis" in g:
             al += [("dis", src, defect, att) for src in ("own", "other") for defect in DIS_DEFECTS for att in DIS_ATTS]
         self.alphabet = al
@@ -221,6 +226,9 @@ class Model(core.BfsModel):
                     continue
             elif kind == "steal":
                 if not w.disclosures["B"]:
+                    continue
+            elif kind == "remeta":
+                if not w.ov[ev[1]].metadata_chain:
                     continue
             out.append(i)
         return out
@@ -261,6 +269,20 @@ class Model(core.BfsModel):
                 self._record_request(w, s, before, (0, 0, "self-attested"))
         elif kind == "dis":
             self._dishonest_disclosure(w, *ev[1:])
+        elif kind == "remeta":
+            # the subject signs a SECOND Metadata object over its latest token (same hash, name, schema and extra
+            # fields, other 'date') and discloses token chain + new metadata to T
+            s = ev[1]
+            o = ov[s]
+            first = o.metadata_chain[-1]
+            fields = json.loads(first.serialized_json_dict)
+            fields["date"] = fields["date"] + 1.0
+            second = Metadata(first.token_pointer, json.dumps(fields).encode(), private_key=o.my_peer.key)
+            w.labels[second.get_hash()] = ("md-second", w.label(first.get_hash()))
+            _, tokens, _, _ = o.pseudonym_manager.create_disclosure({first}, set())
+            raw = second.get_plaintext_signed()
+            blob = len(raw).to_bytes(4, "big") + raw
+            sim.nodes[s].run(o.ez_send, w.peer_of(s, "T"), DisclosePayload(blob, tokens, b"", b""))
         elif kind == "adv":
             s = ev[1]
             self._use(w, 0, 0)
@@ -495,6 +517,7 @@ class Model(core.BfsModel):
                                min(round(now - t, 3), EXPIRED)) for h, nm, k, md, t in c.registrations}, key=repr)),
                 tuple(sorted(repr(L(h)) for h in c.tokens)), tuple(sorted(repr(L(h)) for h in c.metadata)),
                 tuple(sorted(repr(L(h)) for h in c.attested)), tuple(sorted(repr(L(h)) for h in c.third_party)),
+                tuple(sorted((repr(L(t)), repr(L(m))) for t, m in c.attested_tokens.items())),
                 tuple(L(h) for h in w.chain[n].tokens), tuple(sorted((kn(k), i) for k, i in w.chain[n].opened.items())),
                 tuple(sorted((kn(k), repr(L(a[:32])), refm.sig_ok(k, a[32:], a[:32])) for k, a in w.attest_received[n])),
             )
@@ -530,7 +553,7 @@ class Model(core.BfsModel):
 # configurations
 # ------------------------------------------------------------------------------------------------------------------
 
-ALL_GROUPS = ["adv", "replay", "steal", "rm", "att", "reqatt"]   # "dis" only in the dedicated family
+ALL_GROUPS = ["adv", "replay", "steal", "rm", "att", "reqatt", "remeta"]   # "dis" only in the dedicated family
 
 
 def _cfg(**kw) -> dict:  # noqa: ANN003
@@ -544,10 +567,11 @@ def _cfg(**kw) -> dict:  # noqa: ANN003
 def configs(ctx: core.Ctx) -> list[tuple[Model, int]]:
     s = ctx.seed
     # who may be attested: two hashes, both subjects register and request; one name, no extra metadata
-    subjects = _cfg(names=1, reg_md=[0], req_extra=[0], groups=["replay", "steal", "reqatt"])
+    subjects = _cfg(names=1, reg_md=[0], req_extra=[0], groups=["replay", "steal", "reqatt", "remeta"])
     # what may be attested: one hash, subject B; both names, with and without fixed / extra metadata
     # metadata: not fixed / {"k":"v"} / {} (exactly nothing) against credentials with none / {"k":"v"} / a superset
-    fields = _cfg(hashes=1, reg_keys=["B"], req_subjects=["B"], reg_md=[0, 1, 2], req_extra=[0, 1, 2], groups=["replay"])
+    fields = _cfg(hashes=1, reg_keys=["B"], req_subjects=["B"], reg_md=[0, 1, 2], req_extra=[0, 1, 2],
+                  groups=["replay", "remeta"])
     # token hand-out and incoming attestations: one hash/name, B requests and self-advertises, T/D ask for tokens
     tokens = _cfg(hashes=1, names=1, reg_keys=["B"], reg_md=[0], req_subjects=["B"], req_extra=[0], time=[301],
                   groups=["adv", "rm", "att", "replay"])
